@@ -42,6 +42,35 @@ check(
     "DESIGN.md section 3, C02",
 )
 
+check(
+    "C04",
+    "icontract snapshot/postcondition on MolGen.attach_other evaluated on every attachment + offline audit of attach-event lineage; schedule enumeration with a scripted numpy Generator; hostile direct driving",
+    "Every attachment made by the real generator (random streams over ten archetypes, and all choice sequences of bounded instances enumerated with a "
+    "scripted Generator) is checked against the reference conjugation rule and the prescribed atoms/order by a contract that snapshots the molecule "
+    "before and compares after; returned molecules' inter-residue bonds must be explained one-to-one by attach events of their deep-copy lineage; "
+    "attach_other is also driven directly with =/# orders, incompatible pairs and out-of-range indices.",
+    "Held on the executions observed (counts in the evidence). Trusts gbv/ref/compat.py and the contract code; non-single descriptors only through direct driving.",
+    "DESIGN.md section 3, C04",
+)
+check(
+    "C05",
+    "quiescent-point invariant audit of every returned MolGen against AST fragments (verify-a-hint residue partition) + attach_other postcondition",
+    "Each returned molecule (random streams and exhaustively enumerated choice sequences) is partitioned into residue instances using the PDB residue "
+    "numbers as a hint; the partition is then verified atom by atom and bond by bond against the fragment the AST denotes (RDKit dummy-atom reading), "
+    "and the residues must form one tree that MolGen.graph reproduces; sanitisation, organic-subset hydrogen counts and heavy mass are checked.",
+    "Held on the molecules observed. Trusts RDKit (sanitisation, masses) and the dummy-atom reading of fragments.",
+    "DESIGN.md section 3, C05",
+)
+check(
+    "C06",
+    "runtime structure audit of generated molecules against the reference model's closability analysis; logical residue budget for termination; schedule enumeration",
+    "Inputs the reference model proves well-posed are generated under random streams and under all choice sequences of bounded instances; each run must "
+    "complete within a logical residue budget with no open descriptor, each descriptor atom carrying exactly its written number of inter-residue bonds, "
+    "elements in written order joined by exactly one bond through descriptors admitted by the terminals, end groups as leaves.",
+    "Well-posedness is decided by gbv.ref.model.closable (conservative static analysis of descriptor types); inputs it cannot prove are not used for completeness clauses. Wall clock only as an outer inconclusive watchdog.",
+    "DESIGN.md section 3, C06",
+)
+
 ALL = [f"C{i:02d}" for i in range(1, 21)]
 
 
